@@ -8,6 +8,14 @@ def main(argv):
     bad = 0
     for sd in dirs:
         meta = json.load(open(os.path.join(root, sd, "meta.json")))
+        if meta.get("benign"):
+            # behaviour-preserving refactor: no check may report a violation (exit 2 = undecided is acceptable)
+            res = seedtool.prun(sd)
+            alarms = [p for p, r in res.items() if isinstance(r, dict) and r.get("exit") == 1]
+            bad += 1 if alarms else 0
+            print("%-12s benign  %s" % (sd, "FALSE ALARM in " + ",".join(alarms) if alarms else "no alarm " + str({p: r.get("exit") for p, r in res.items()})))
+            sys.stdout.flush()
+            continue
         res = seedtool.run(sd)
         r = res.get(meta["property"], {})
         got = {1: "violation", 2: "undecided", 0: "missed"}.get(r.get("exit"), "error")
